@@ -19,7 +19,12 @@ Objects are named by class ("R", "M", "G" gene, "P" group) and number; identifie
   ["RemoveMet", m, destructive, via]    via: "list" | "single" | "method"
   ["RemoveGenes", [id...], remove_reactions, via]   via: "id" | "obj"
   ["SetId", c, n, i]
-  ["Enter"], ["Exit"]"""
+  ["EscapeIds"]                         cobra.manipulation.modify.escape_ID(model); the Coq op carries _escape_str_id as a table
+                                        (identifier number -> identifier number) evaluated by the REAL function at that moment
+  ["SetBounds", r, lb, ub]              reaction.bounds = (lb, ub)
+  ["Enter"], ["Exit"]
+Identifier numbers 100+j are legacy identifiers "<prefix>" + LEG[j] that escape_ID rewrites, 200+j their escaped forms, -4 is
+"a_SPACE_b" (the escaped form of -2); cfg may give initial identifiers: "ids": {"R": {"0": 101}, ...}."""
 import json
 import logging
 import os
@@ -55,20 +60,46 @@ ODD_IDS = {-1: "", -2: "a b", -3: 5}
 NEW_IDS = 12        # identifiers 0 .. 11
 
 
+LEG = ["-b", "1.a", "_glc(e)", "-D[e]", ":c,d", "+x=y", "/z>w"]     # legacy identifier suffixes; the first GLEG parse in a rule
+GLEG = 2
+ODD_IDS[-4] = "a_SPACE_b"
+
+
+_ESC = []
+
+
+def _esc_table():
+    if not _ESC:
+        from cobra.manipulation.modify import _escape_str_id
+        _ESC.extend(_escape_str_id(x) for x in LEG)
+    return _ESC
+
+
 def enc(c, i):
+    if i >= 200:
+        return PFX[c] + _esc_table()[i - 200]
+    if i >= 100:
+        return PFX[c] + LEG[i - 100]
     return PFX[c] + str(i) if i >= 0 else ODD_IDS[i]
 
 
 def dec(c, s):
     if not isinstance(s, str):
         return None
-    if s == "":
-        return -1
-    if s == "a b":
-        return -2
+    for k, v in ODD_IDS.items():
+        if s == v:
+            return k
     p = PFX[c]
-    if s.startswith(p) and s[len(p):].isdigit() and str(int(s[len(p):])) == s[len(p):]:
-        return int(s[len(p):])
+    if not s.startswith(p):
+        return None
+    rest = s[len(p):]
+    if rest.isdigit() and str(int(rest)) == rest and int(rest) < 100:
+        return int(rest)
+    if rest in LEG:
+        return 100 + LEG.index(rest)
+    esc = _esc_table()
+    if rest in esc:
+        return 200 + esc.index(rest)
     return None
 
 
@@ -178,19 +209,21 @@ class Impl:
         with warnings.catch_warnings():
             warnings.simplefilter("ignore")
             M = self.model = cobra.Model("groups")
-            self.mt = [cobra.Metabolite("M%d" % k, compartment="c") for k in range(cfg["nm"])]
+            ids = cfg.get("ids", {})
+            name = lambda c, k: enc(c, int(ids.get(c, {}).get(str(k), k)))  # noqa
+            self.mt = [cobra.Metabolite(name("M", k), compartment="c") for k in range(cfg["nm"])]
             self.rx = []
             for k, rc in enumerate(cfg["rx"]):
-                r = cobra.Reaction("R%d" % k)
+                r = cobra.Reaction(name("R", k))
                 if k < cfg["n_in"]:
                     r.add_metabolites({self.mt[m]: float(c) for m, c in rc["sto"]})
                     if rc["genes"]:
-                        r.gene_reaction_rule = " or ".join("g%d" % g for g in rc["genes"])
+                        r.gene_reaction_rule = " or ".join(name("G", g) for g in rc["genes"])
                 self.rx.append(r)
             M.add_reactions(self.rx[:cfg["n_in"]])
             if cfg.get("mets_in"):
                 M.add_metabolites([self.mt[m] for m in cfg["mets_in"]])
-            self.gn = [M.genes.get_by_id("g%d" % k) if M.genes.has_id("g%d" % k) else Gene("g%d" % k)
+            self.gn = [M.genes.get_by_id(name("G", k)) if M.genes.has_id(name("G", k)) else Gene(name("G", k))
                        for k in range(cfg["ng"])]
             self.gp = [Group("G%d" % k) for k in range(cfg["np"])]
         self.objs = {"R": self.rx, "M": self.mt, "G": self.gn, "P": self.gp}
@@ -264,6 +297,11 @@ class Impl:
                     remove_genes(M, l, remove_reactions=bool(a[1]))
                 elif n == "SetId":
                     self.objs[a[0]][a[1]].id = enc(a[0], a[2])
+                elif n == "EscapeIds":
+                    from cobra.manipulation.modify import escape_ID
+                    escape_ID(M)
+                elif n == "SetBounds":
+                    self.rx[a[0]].bounds = (float(a[1]), float(a[2]))
                 elif n == "Enter":
                     M.__enter__()
                 elif n == "Exit":
@@ -280,10 +318,28 @@ class Impl:
             except Exception as e:  # noqa
                 return "RaiseOther:" + type(e).__name__
 
+    def escape_table(self):
+        """_escape_str_id on the identifiers the model has now, as pairs of identifier numbers (only those that change);
+        None when an identifier or its escaped form is outside the encoding."""
+        from cobra.manipulation.modify import _escape_str_id
+        out = {}
+        lists = self.lists()
+        for c in "MRG":
+            for x in lists[c]:
+                if not isinstance(x.id, str):
+                    return None
+                i, e = dec(c, x.id), dec(c, _escape_str_id(x.id))
+                if i is None or e is None or out.get(i, e) != e:
+                    return None
+                if i != e:
+                    out[i] = e
+        return sorted(out.items())
+
     # ---------------------------------------------------------------- observation of the real objects
     def observe(self, res="Ok"):
         M = self.model
         shape = True
+        self.bad_bounds = False
         lists = self.lists()
         pos = {}
         for c in CLS:
@@ -348,8 +404,28 @@ class Impl:
                         shape = False
                         continue
                     col.setdefault(w, []).append([mk, int(cf)])
-            from swiglpk import glp_get_num_cols, glp_get_col_name, glp_get_num_rows, glp_get_row_name
+            from swiglpk import (glp_get_num_cols, glp_get_col_name, glp_get_num_rows, glp_get_row_name, glp_get_col_type,
+                                 glp_get_col_lb, glp_get_col_ub, GLP_FR, GLP_LO, GLP_UP, GLP_DB, GLP_FX)
             P = M.solver.problem
+            # the raw GLPK column found under the name reaction.id / reverse_id carries the bounds of that reaction
+            colb = {}
+            for j in range(1, glp_get_num_cols(P) + 1):
+                t = glp_get_col_type(P, j)
+                lo = glp_get_col_lb(P, j) if t in (GLP_LO, GLP_DB, GLP_FX) else float("-inf")
+                hi = glp_get_col_ub(P, j) if t in (GLP_UP, GLP_DB) else (lo if t == GLP_FX else float("inf"))
+                colb[glp_get_col_name(P, j)] = (lo, hi)
+            for k, r in enumerate(self.rx):
+                if pos["R"].get(id(r), -1) >= 0 and isinstance(r.id, str):
+                    lb, ub = r._lower_bound, r._upper_bound
+                    if lb > 0:
+                        want = ((lb, ub), (0.0, 0.0))
+                    elif ub < 0:
+                        want = ((0.0, 0.0), (-ub, -lb))
+                    else:
+                        want = ((0.0, ub), (0.0, -lb))
+                    if colb.get(r.id) != want[0] or colb.get(r.reverse_id) != want[1]:
+                        shape = False
+                        self.bad_bounds = True
             if sorted(glp_get_col_name(P, j) for j in range(1, glp_get_num_cols(P) + 1)) != sorted(v.name for v in M.variables):
                 shape = False
             if sorted(glp_get_row_name(P, j) for j in range(1, glp_get_num_rows(P) + 1)) != sorted(c.name for c in M.constraints):
@@ -413,7 +489,8 @@ class Impl:
                 shape = False
             kd = KINDS.index(g.kind) if g.kind in KINDS else -1
             gp.append({"c": com["P"][k], "members": sorted(mem), "kind": kd})
-        return {"rx": rx, "mt": mt, "gn": gn, "gp": gp, "vars": vars_, "cons": cons, "shape": bool(shape), "res": res}
+        return {"rx": rx, "mt": mt, "gn": gn, "gp": gp, "vars": vars_, "cons": cons, "shape": bool(shape), "res": res,
+                "bounds_ok": not self.bad_bounds}
 
 
 # ------------------------------------------------------------------ Coq terms
@@ -471,6 +548,10 @@ def op_term(o):
         return "(RemoveGenes %s %s)" % (zl(a[0]), bt(a[1]))
     if n == "SetId":
         return "(SetId %s %d %s)" % (COQ_CLS[a[0]], a[1], z(a[2]))
+    if n == "EscapeIds":
+        return "(EscapeIds %s)" % pl(a[0])          # a[0]: the table, filled in by run_case
+    if n == "SetBounds":
+        return "(SetBounds %d %s %s)" % (a[0], z(a[1]), z(a[2]))
     raise ValueError(n)
 
 
@@ -569,7 +650,7 @@ def precond(im, o, last=True, in_block=False):
     try:
         if n in ("Enter", "Exit"):
             return True
-        if in_block and n not in ("RemoveRxn", "RemoveMet", "RemoveGenes"):
+        if in_block and n not in ("RemoveRxn", "RemoveMet", "RemoveGenes", "SetBounds"):
             return False                                # not documented as reverted by a context
         if n in ("AddGroups", "RemoveGroups"):
             if not o[1] or any(not 0 <= k < size["P"] for k in o[1]):
@@ -602,9 +683,28 @@ def precond(im, o, last=True, in_block=False):
         elif n == "RemoveGenes":
             if not o[1] or any(i < 0 for i in o[1]):
                 return False
-        elif n == "SetId":
-            if not 0 <= o[2] < size[o[1]] or not -3 <= o[3] < 40:
+        elif n == "EscapeIds":
+            t = im.escape_table()
+            if t is None:
                 return False
+            if not VARIANT["idhook_gene"]:
+                # the unrepaired Gene.id accepts an identifier another gene has (known finding); only the repaired
+                # setter is modelled: no escape_ID that would merge two gene identifiers
+                gids = [g.id for g in im.model.genes]
+                d = dict(t)
+                new = [d.get(dec("G", i), dec("G", i)) for i in gids]
+                if len(set(new)) != len(new):
+                    return False
+        elif n == "SetBounds":
+            if not 0 <= o[1] < size["R"] or not (-50 <= o[2] <= 50 and -50 <= o[3] <= 50):
+                return False
+            if in_block and not im.listed("R", o[1]):
+                return False            # (an object outside the model does not see the model's context: kernel I's scope rule)
+        elif n == "SetId":
+            if not 0 <= o[2] < size[o[1]] or not -4 <= o[3] < 200 + len(LEG):
+                return False
+            if o[1] == "G" and 100 <= o[3] < 200 and o[3] - 100 >= GLEG:
+                return False            # not parseable inside a rule
             ob = im.objs[o[1]][o[2]]
             if o[1] in "GP" and getattr(ob, "_model", None) is not None and not im.listed(o[1], o[2]) \
                     and not VARIANT["idhook_gene" if o[1] == "G" else "idhook_group"]:
@@ -621,23 +721,28 @@ def precond(im, o, last=True, in_block=False):
 def run_case(case, ctx=False):
     im = Impl(case["cfg"])
     obs0 = im.observe()
-    steps, depth = [], 0
+    steps, depth, filled = [], 0, []
     n = len(case["ops"])
     for j, o in enumerate(case["ops"]):
         if o[0] == "Exit" and depth == 0:
             raise InvalidCase("exit without a block")
         if (o[0] in ("Enter", "Exit") and not ctx) or not precond(im, o, last=(j == n - 1), in_block=depth > 0):
             raise InvalidCase(str(o))
+        if o[0] == "EscapeIds":
+            filled.append(["EscapeIds", [list(x) for x in im.escape_table()]])
+        else:
+            filled.append(o)
         res = im.apply(o)
         depth += 1 if o[0] == "Enter" else (-1 if o[0] == "Exit" else 0)
         steps.append(im.observe(res))
     if depth != 0:
         raise InvalidCase("open block")
+    case["_filled"] = filled            # the ops with run-time arguments filled in (for the term printer)
     return obs0, steps
 
 
 # ------------------------------------------------------------------ generator
-def gen_cfg(rng):
+def gen_cfg(rng, legacy_p=0.4):
     nm = rng.choice([3, 4, 4, 5, 6])
     n_in = rng.choice([2, 3, 3, 4, 5])
     n_out = rng.choice([0, 1, 1, 2])
@@ -654,11 +759,24 @@ def gen_cfg(rng):
         rx.append({"sto": [], "genes": []})
     used = {m for r in rx for m, _ in r["sto"]}
     mets_in = [m for m in range(nm) if m not in used and rng.random() < 0.5]
-    return {"nm": nm, "ng": ng, "np": np_, "rx": rx, "n_in": n_in, "mets_in": mets_in}
+    cfg = {"nm": nm, "ng": ng, "np": np_, "rx": rx, "n_in": n_in, "mets_in": mets_in}
+    if rng.random() < legacy_p:
+        # legacy identifiers that escape_ID rewrites ("R_glc(e)", "M-D[e]", "g1.a", ...), now and then one that already is
+        # the escaped form of another
+        ids = {}
+        for c, size, nleg in (("R", len(rx), len(LEG)), ("M", nm, len(LEG)), ("G", ng, GLEG)):
+            pool = [100 + j for j in range(nleg)] + ([200 + rng.randrange(nleg)] if rng.random() < 0.3 else [])
+            for k in rng.sample(range(size), min(size, rng.choice([0, 1, 1, 2]))):
+                code = rng.choice(pool)
+                if code not in ids.get(c, {}).values():
+                    ids.setdefault(c, {})[str(k)] = code
+        if ids:
+            cfg["ids"] = ids
+    return cfg
 
 
-def gen_history(rng, length, odd_p=0.15, ctx=False):
-    cfg = gen_cfg(rng)
+def gen_history(rng, length, odd_p=0.15, ctx=False, weights=None, avoid_findings=False):
+    cfg = gen_cfg(rng, legacy_p=0.75 if avoid_findings else 0.4)
     im = Impl(cfg)
     M = im.model
     ops = []
@@ -674,7 +792,7 @@ def gen_history(rng, length, odd_p=0.15, ctx=False):
 
     def do(o):
         fin = final_only(im, o)
-        if fin and (ctx or depth > 0):
+        if (fin and (ctx or depth > 0)) or (avoid_findings and trigger(im, o)):
             return False
         if not precond(im, o, last=True, in_block=depth > 0):
             return False
@@ -702,7 +820,7 @@ def gen_history(rng, length, odd_p=0.15, ctx=False):
         return out
 
     # most histories begin by filling one or two groups and adding them (ordinary, recorded operations)
-    if rng.random() < 0.85:
+    if rng.random() < (0.3 if avoid_findings else 0.85):
         for p in rng.sample(range(size["P"]), min(size["P"], rng.choice([1, 2, 2, 3]))):
             l = some_refs(rng.choice([1, 2, 3, 4]), want_listed=True, allow_out=rng.random() < 0.3)
             if l:
@@ -710,11 +828,12 @@ def gen_history(rng, length, odd_p=0.15, ctx=False):
             if rng.random() < 0.85:
                 do(["AddGroups", [p], "list"])
     W = {"AddGroups": 10, "RemoveGroups": 8, "AddMembers": 14, "RemoveMembers": 6, "SetKind": 3, "RemoveRxn": 10,
-         "RemoveMet": 8, "RemoveGenes": 6, "SetId": 26}
+         "RemoveMet": 8, "RemoveGenes": 6, "SetId": 26, "EscapeIds": 4, "SetBounds": 5}
+    W.update(weights or {})
     if ctx:
         W.update({"RemoveRxn": 16, "RemoveMet": 12, "RemoveGenes": 9, "SetId": 12})
     names = [n for n, w in W.items() for _ in range(w)]
-    inblock = ["RemoveRxn"] * 5 + ["RemoveMet"] * 4 + ["RemoveGenes"] * 3
+    inblock = ["RemoveRxn"] * 5 + ["RemoveMet"] * 4 + ["RemoveGenes"] * 3 + ["SetBounds"]
     guard = 0
     while len(ops) < length and guard < length * 25 and not state["stop"]:
         guard += 1
@@ -818,6 +937,9 @@ def gen_history(rng, length, odd_p=0.15, ctx=False):
             k = rng.choice(pool)
             cur = {dec(c, ob.id) for ob in im.lists()[c]}
             fresh = [i for i in range(NEW_IDS) if i not in cur]
+            if rng.random() < 0.2:
+                nleg = GLEG if c == "G" else len(LEG)     # a legacy identifier, or the escaped form of one
+                fresh = [i for i in [100 + j for j in range(nleg)] + [200 + j for j in range(nleg)] if i not in cur] or fresh
             if odd:
                 x = rng.random()
                 if x < 0.35 and cur - {None}:
@@ -836,10 +958,19 @@ def gen_history(rng, length, odd_p=0.15, ctx=False):
             else:
                 continue
             o = ["SetId", c, k, i]
+        elif n == "EscapeIds":
+            o = ["EscapeIds"]
+        elif n == "SetBounds":
+            pool = listed("R") if (listed("R") and rng.random() < 0.85) else list(range(size["R"]))
+            lb = rng.choice([-10, -5, 0, 0, 2])
+            ub = rng.choice([0, 3, 7, 10]) if not odd else rng.choice([-20, 1])
+            if lb > ub and not odd:
+                lb, ub = ub, lb
+            o = ["SetBounds", rng.choice(pool), lb, ub]
         if o is None:
             continue
-        if trigger(im, o) and rng.random() < 0.8:
-            continue                                    # known findings of the code under test: seldom
+        if trigger(im, o) and (avoid_findings or rng.random() < 0.8):
+            continue                                    # known findings of the code under test: seldom (C01 part: never)
         do(o)
     while depth > 0:
         do(["Exit"])
@@ -858,7 +989,7 @@ def evaluate(cases, ctx=False):
             continue
         pr = cop_term if ctx else op_term
         terms.append("(%s, [%s])" % (obs_term(obs0), "; ".join("(%s, %s)" % (pr(o), obs_term(s))
-                                                               for o, s in zip(c["ops"], steps))))
+                                                               for o, s in zip(c.pop("_filled"), steps))))
         impl.append((obs0, steps))
         idx.append(i)
     fn = "%s %s" % ("failing_ctx" if ctx else "failing", variant_term())
@@ -976,6 +1107,8 @@ def symptoms(ob):
     for r in ob["rx"]:
         if r["c"]["pos"] >= 0 and (r["col"] != r["sto"] or r["colr"] != sorted([m, -c] for m, c in r["sto"])):
             out.add("rows")
+    if not ob.get("bounds_ok", True):
+        out.add("column-bounds")
     if not ob["shape"]:
         out.add("shape")
     return sorted(out)
@@ -1106,7 +1239,20 @@ def fault(rep, faults, what):
                   no_input=True)
 
 
-def run(rep, args, rng):
+C01_WEIGHTS = {"AddGroups": 5, "RemoveGroups": 1, "AddMembers": 6, "RemoveMembers": 1, "SetKind": 0, "RemoveRxn": 8,
+               "RemoveMet": 8, "RemoveGenes": 3, "SetId": 30, "EscapeIds": 10, "SetBounds": 14}
+
+
+def run_c01(rep, args, rng):
+    """Called by core.main for C01 (the solver holds exactly the model's problem): the identifier part of the kernel -
+    identifier assignments, escape_ID, bounds edits after a rename, removals and add_groups bringing objects in - with
+    the operations that run into the known findings of C02 left out; the solver clauses of inv_b (every variable /
+    constraint is named after a reaction / metabolite of the model and nothing else, the rows found under the names carry
+    the coefficients, the columns found under the names carry the bounds) and the comparison with the model."""
+    return run(rep, args, rng, sizes=((120, 12), (3000, 24)), weights=C01_WEIGHTS, avoid_findings=True, corpus=None)
+
+
+def run(rep, args, rng, sizes=((300, 14), (6000, 30)), weights=None, avoid_findings=False, corpus=CORPUS):
     """Called by core.main for C02: evaluates histories of the groups kernel and reports violations."""
     t0 = time.time()
     probe_variant()
@@ -1117,16 +1263,16 @@ def run(rep, args, rng):
             return {"skipped": "replay of a case of another kernel"}
         cases = [data["case"]]
     else:
-        n, L = (300, 14) if args.tier == "quick" else (6000, 30)
-        cases = load_corpus(CORPUS)
+        n, L = sizes[0] if args.tier == "quick" else sizes[1]
+        cases = load_corpus(corpus) if corpus else []
         n_corpus = len(cases)
         for _ in range(n):
-            cases.append(gen_history(rng, rng.randrange(3, L + 1)))
+            cases.append(gen_history(rng, rng.randrange(3, L + 1), weights=weights, avoid_findings=avoid_findings))
     res, faults, impl = evaluate(cases)
     if faults:
         fault(rep, faults, "")
     op_hist, res_hist, n_steps, distinct = {}, {}, 0, set()
-    feat = {"setid_in_model": 0, "setid_existing_id_refused": 0, "setid_same_id": 0, "setid_bad_name": 0,
+    feat = {"escape_ids_renaming": 0, "escape_ids_refused": 0, "bounds_after_rename": 0, "setid_in_model": 0, "setid_existing_id_refused": 0, "setid_same_id": 0, "setid_bad_name": 0,
             "setid_non_string": 0, "setid_outside_model": 0, "remove_of_group_member": 0, "remove_group_nested": 0,
             "remove_group_absent": 0, "add_group_existing_id": 0, "add_group_brings_objects": 0, "orphans_removed": 0,
             "max_model_groups": 0, "histories_outside_domain": 0}
@@ -1151,6 +1297,11 @@ def run(rep, args, rng):
                 feat["setid_existing_id_refused"] += (s["res"] == "RaiseValueError" and o[3] >= 0)
                 feat["setid_bad_name"] += o[3] in (-1, -2)
                 feat["setid_non_string"] += o[3] == -3
+            elif o[0] == "EscapeIds":
+                feat["escape_ids_renaming"] += any(x["c"]["id"] != y["c"]["id"] for k_ in ("rx", "mt", "gn") for x, y in zip(prev[k_], s[k_]))
+                feat["escape_ids_refused"] += s["res"] != "Ok"
+            elif o[0] == "SetBounds":
+                feat["bounds_after_rename"] += prev["rx"][o[1]]["c"]["id"] != o[1] and prev["rx"][o[1]]["c"]["pos"] >= 0
             elif o[0] in ("RemoveRxn", "RemoveMet"):
                 cm = prev["rx" if o[0] == "RemoveRxn" else "mt"][o[1]]["c"]
                 feat["remove_of_group_member"] += bool(cm["assoc"]) and cm["pos"] >= 0
@@ -1208,6 +1359,10 @@ def python_lines(case):
             out.append("remove_genes(model, %r, remove_reactions=%s)" % ([enc("G", i) for i in a[0]], bool(a[1])))
         elif n == "SetId":
             out.append("%s.id = %r" % (rf([a[0], a[1]]), enc(a[0], a[2])))
+        elif n == "EscapeIds":
+            out.append("cobra.manipulation.modify.escape_ID(model)")
+        elif n == "SetBounds":
+            out.append("R[%d].bounds = (%d, %d)" % (a[0], a[1], a[2]))
         elif n == "Enter":
             out.append("model.__enter__()")
         elif n == "Exit":
